@@ -356,6 +356,38 @@ def run_op(op, pre, case='isotropic'):
                 sim.fields['survey'].fields.update(name=None, date=None, info=None)
                 sim.fields.update(name=None, info=None, layered_opts={})
                 v = it.call(it.getattr(sim, 'to_dict'), ['computed', False], {})
+            elif op == 'reload':
+                # Simulation.from_dict(sim.to_dict(what='computed')) -- the step every copy(), to_file / from_file and CLI --load / --cache goes through.
+                # Survey / Model.to_dict / from_dict give back an equal survey / model (assumed; here: the object itself); the constructor gives a
+                # simulation in the plain state for them (its own contract: run_op('compute', 'plain') etc. start from that state)
+                from pyvc import intake
+                for o in list(sim.fields['survey'].fields['sources'].values()) + list(sim.fields['survey'].fields['receivers'].values()):
+                    o.fields['to_dict'] = cx.Closure(__import__('ast').parse('lambda: {}').body[0].value, {}, it)
+                sim.fields.update(name=None, info=None, layered_opts={})
+                sim.fields['model'].mod = 'models'
+
+                def obj_to_dict(it_, args, kw, node):
+                    return {'__the_object__': args[0]}
+
+                def obj_from_dict(it_, args, kw, node):
+                    d_ = args[-1]
+                    if not (isinstance(d_, dict) and '__the_object__' in d_):
+                        raise cx.Unsupported('Survey / Model.from_dict is not handed the dictionary of Survey / Model.to_dict')
+                    return d_['__the_object__']
+
+                def new_simulation(it_, args, kw, node):
+                    from .c0910 import bind_call
+                    b = bind_call('simulations.Simulation', list(args), dict(kw))
+                    new, _ = mk_sim('plain')
+                    new.fields['survey'], new.fields['model'] = b.get('survey'), b.get('model')
+                    st['constructed_with'] = b
+                    return new
+                ctx.summaries.update({'surveys.Survey.to_dict': obj_to_dict, 'models.Model.to_dict': obj_to_dict, 'surveys.Survey.from_dict': obj_from_dict,
+                                      'models.Model.from_dict': obj_from_dict, 'simulations.Simulation': new_simulation, 'io._dict_deserialize': lambda it_, a, k, n: None})
+                d = it.call(it.getattr(sim, 'to_dict'), ['computed', False], {})
+                fnode, _, _ = intake.func('simulations.Simulation.from_dict')
+                v = it.call(cx.Closure(fnode, {}, it, qualname='simulations.Simulation.from_dict', self_obj=cx.ClassRef('simulations', 'Simulation')), [d], {})
+                st['reloaded'] = v
             else:
                 raise RuntimeError(op)
         except cx._Raise as e:
@@ -364,7 +396,7 @@ def run_op(op, pre, case='isotropic'):
     return cx.explore(run)
 
 
-OPS = ('compute', 'misfit', 'gradient', 'get_efield', 'clean_computed', 'clean_keepresults', 'clean_all', 'jtvec', 'jvec', 'model_update', 'to_dict')
+OPS = ('compute', 'misfit', 'gradient', 'get_efield', 'clean_computed', 'clean_keepresults', 'clean_all', 'jtvec', 'jvec', 'model_update', 'to_dict', 'reload')
 
 
 def replay(d):
@@ -382,6 +414,11 @@ def task_op(op):
         if op == 'jtvec' and pre in ('plain', 'computed', 'partial', 'computed_old_weights'):
             continue       # jtvec needs weights: documented to be used with the weighted residual after a misfit evaluation
         res += run_op(op, pre)
+    if op == 'reload':
+        for r in res:
+            if r.outcome == 'return' and isinstance(r.state.get('reloaded'), cx.Obj):
+                r.state['original'], r.state['sim'] = r.state['sim'], r.state['reloaded']
+                r.state['sim_for_state'] = r.state['original']
     bad = {}
     for r in res:
         if r.outcome == 'return':
@@ -472,6 +509,24 @@ def task_op(op):
                 return False
             return so['tol'] == r.state['sim'].fields['tol_forward']
         clause(col, 'stored_solver_options_carry_the_forward_tolerance_whatever_the_history', res, stored_tol)
+    if op == 'reload':
+        def same_state(r):
+            # what comes back from the dictionary is the simulation that went in: computed flag, cached misfit and gradient, fields and solver
+            # information of every slot -- carried over as they are, nothing inferred, nothing dropped
+            if r.outcome != 'return':
+                return None
+            a, b = r.state.get('original', r.state['sim']), r.state.get('reloaded')
+            if not isinstance(b, cx.Obj) or b is a:
+                return False
+            A, B = a.fields, b.fields
+            same = lambda x, y: (x is None and y is None) or (x is not None and y is not None and cx.deps_of(x) == cx.deps_of(y))
+            ok = B['_computed'] is A['_computed'] and same(A['_misfit'], B['_misfit']) and same(A['_gradient'], B['_gradient'])
+            ok = ok and B['survey'] is A['survey'] and B['model'] is A['model']
+            for name in ('_dict_efield', '_dict_efield_info', '_dict_bfield', '_dict_bfield_info'):
+                if name in A:
+                    ok = ok and name in B and B[name][SRC][FRQ] is A[name][SRC][FRQ]
+            return ok
+        clause(col, 'reloaded_simulation_has_the_computed_flag_the_cached_misfit_and_gradient_and_the_fields_of_the_original', res, same_state, sample=True)
     if op == 'misfit':
         def number(r):
             # what misfit hands back is the number (an array / scalar that stems from the coherent residual) -- also from a simulation that came
